@@ -513,6 +513,9 @@ def _symbolic():
             S = z3.Select
             st.mon['users'] = z3.Store(st.mon['users'], key, S(st.mon['users'], key) + 1)
             obj = ex.eval(node.value.value, st)
+            if isinstance(obj, Val) and isinstance(obj.ty, sym.TOption):
+                # an optional value (e.g. `a if c else b` with b possibly None) is yielded: it must not be None
+                obj = Val(obj.ty.inner, ex.to_term(obj, obj.ty.inner, st))
             st.mon['yielded_obj'] = obj.t
             r = st.env['self'].fields['_refs']
             ex.oblige(st, 'grant', 'the yielded object is the pooled object of the key, not destroyed',
@@ -553,6 +556,14 @@ def _symbolic():
 
     @M.intrinsic('call:Fn')
     def _factory(ex, st, args, kwargs, node):
+        r0 = st.env['self'].fields['_refs']
+        # a key never has two live objects (for file descriptors: closing one of two descriptors of a file drops the
+        # process's locks held through the other): the factory may only run while the key has no pooled object
+        ex.safety(st, z3.Not(z3.Select(r0.keys, ex.to_term(args[1], Key, st))),
+                  'the factory runs only while the key has no pooled object (never two live objects per key)', node)
+        lk0 = st.env['self'].fields['_lock']
+        ex.safety(st, lk0.owner == st.mon['tid'],
+                  'the factory runs inside the critical section that found the key absent (pool lock held)', node)
         o = Obj.fresh('made')
         # a new object (os.open gives a new descriptor; constructors give new objects): alive
         st.assume(z3.Not(z3.Select(st.mon['destroyed'], o)))
@@ -566,7 +577,16 @@ def _symbolic():
     @M.intrinsic('call:Opt<Fn>')
     def _destructor(ex, st, args, kwargs, node):
         o = args[1]
+        if isinstance(o, Val) and isinstance(o.ty, sym.TOption):
+            o = Val(o.ty.inner, ex.to_term(o, o.ty.inner, st))
         ex.safety(st, z3.Not(z3.Select(st.mon['destroyed'], o.t)), 'object destroyed at most once', node)
+        # the destructor closes the object: it must not be the pooled object of a key that still has users
+        r = st.env['self'].fields['_refs']
+        k = z3.Const(sym.fresh_name('k'), Key.sort())
+        ex.safety(st, z3.ForAll([k], z3.Implies(z3.And(z3.Select(r.keys, k), z3.Select(st.mon['users'], k) >= 1),
+                                                z3.Select(r.arrs[0], k) != o.t),
+                                patterns=[z3.Select(r.keys, k)]),
+                  'the destructor is not applied to an object that is still in use', node)
         st.mon['destroyed'] = z3.Store(st.mon['destroyed'], o.t, True)
         return NONE
 
